@@ -156,11 +156,14 @@ def run_verus(repo_src, tag, rlimit=None, threads=16):
     res.meta = meta
     res.gen_path = out
     cmd = ["verus", "toodee_v.rs", "--num-threads", str(threads), "--output-json", "--time",
-           "--error-format=json", "--multiple-errors", "5"]
-    if rlimit:
-        cmd += ["--rlimit", str(rlimit)]
+           "--error-format=json", "--multiple-errors", "5", "--rlimit", str(rlimit or 60)]
     res.cmd = "cd %s && %s" % (work, " ".join(cmd))
     p = sh(cmd, cwd=work)
+    if any(m in p.stderr.lower() for m in ("resource limit", "rlimit")):
+        # solver instability is not a verdict: retry once with another seed and a larger budget
+        cmd2 = cmd[:-2] + ["--rlimit", "300", "--smt-option", "smt.random_seed=7"]
+        res.cmd += "   (retried after a resource-limit report: %s)" % " ".join(cmd2)
+        p = sh(cmd2, cwd=work)
     res.wall_s = time.time() - t0
     # stdout: JSON summary; stderr: one JSON diagnostic per line
     try:
@@ -323,6 +326,7 @@ def main():
 
     violations = []     # dicts: obligation, msg, detail, fn
     assumed_fns = []
+    lost_fail = []      # failed obligations in functions whose proof-hint anchors were lost
     undecided = []
     known, fixed = load_known()
     functions = []
@@ -365,7 +369,10 @@ def main():
             n_ob = len(clauses) + 1   # +1: body safety (callee preconditions, bounds, overflow, type invariants)
             obligations += n_ob
             fid = "%s|%s|%s" % (r["file"], r["container"], r["name"])
-            ds = [d for d in vr.diags if d["fn"] is r]
+            # clauses that belong to another property's claim (listed per property) are not this property's obligations
+            ign = pm.get("ignore_clauses", [])
+            ds = [d for d in vr.diags if d["fn"] is r and not any(g.replace(" ", "") in d["clause"].replace(" ", "") for g in ign)]
+            other = [d for d in vr.diags if d["fn"] is r and d not in ds]
             frec = {"fn": fid, "repo_line": r["line"], "mode": r["mode"], "verus_name": name,
                     "ensures_clauses": len(clauses), "time_us": vr.fn_time_us.get(name, 0),
                     "back_end": "verus/z3"}
@@ -380,12 +387,17 @@ def main():
                     kind = d["msg"]
                     ob = "%s :: %s :: %s" % (fid, kind, d["clause"])
                     if r["name"] in lost:
-                        undecided.append("obligation failed in %s but a proof-hint anchor was lost in that function (edit changed the anchored statement); cannot separate proof brittleness from a defect: %s" % (fid, kind))
+                        lost_fail.append({"obligation": ob, "fn": fid, "msg": kind, "clause": d["clause"],
+                                          "origin": d["origin"], "rendered": d["rendered"]})
                         continue
                     violations.append({"obligation": ob, "fn": fid, "msg": kind, "clause": d["clause"],
                                        "origin": d["origin"], "rendered": d["rendered"]})
                     failed_clauses.add(d["clause"])
                 discharged += max(0, n_ob - max(1, len(failed_clauses)))
+            elif other:
+                frec["result"] = "verified for this property's clauses (a clause owned by another property failed)"
+                discharged += n_ob - 1
+                obligations -= 1
             elif succ is None:
                 frec["result"] = "not-reported"
                 undecided.append("verus did not report on %s (%s)" % (fid, name))
@@ -432,23 +444,31 @@ def main():
                 hit = k
                 break
         if hit:
-            out_lines.append("KNOWN-FINDING: property=%s %s" % (pid, hit["text"][len("known:"):].strip()))
+            txt = re.sub(r"^property=\S+\s*", "", hit["text"][len("known:"):].strip())
+            out_lines.append("KNOWN-FINDING: property=%s %s" % (pid, txt))
         else:
             real.append(v)
 
-    # ---- replay files for violations
+    # ---- concrete-input search (once per run): replay for violations, tie-breaker for lost anchors
     os.makedirs(REPLAY_DIR, exist_ok=True)
     viol_lines = []
-    if real:
+    found = None
+    if real or lost_fail:
         import replay_search
+        try:
+            found = replay_search.search(REPO, pid)
+        except Exception as e:  # the search is best-effort
+            found = {"found": False, "error": str(e)}
+    if lost_fail:
+        if found and found.get("found") and found.get("confirmed"):
+            # the failure is not proof brittleness: a concrete input fails on the real code
+            real += lost_fail
+        else:
+            for v in lost_fail:
+                undecided.append("obligation failed in %s but a proof-hint anchor was lost in that function (the edit changed the anchored statement) and no failing input was found within the replay bounds; cannot separate proof brittleness from a defect: %s" % (v["fn"], v["msg"]))
     for v in real:
         h = hashlib.sha256(v["obligation"].encode()).hexdigest()[:10]
         path = os.path.join(REPLAY_DIR, "%s-%s.json" % (pid, h))
-        found = None
-        try:
-            found = replay_search.search(REPO, pid, v)
-        except Exception as e:  # the search is best-effort
-            found = {"found": False, "error": str(e)}
         doc = {"property": pid, "obligation": v["obligation"], "function": v["fn"],
                "verifier_message": v["msg"], "failed_clause": v["clause"],
                "repo_location": v["origin"], "verifier_output": v["rendered"],
@@ -480,7 +500,15 @@ def main():
         "undecided": undecided,
     }
     if kani_info:
-        cov["states"] = kani_info.get("checks", 0)
+        hs = kani_info.get("harnesses", [])
+        cov["evaluations"] = len(hs)
+        cov["distinct_nontrivial"] = len(set((h["family"], h["harness"]) for h in hs if h.get("checks", 0) > 0 and h.get("status")))
+        cov["rule"] += " | bounded part: one evaluation per Kani harness (a concrete shape of one operation family with symbolic indices/cells); non-trivial = CBMC evaluated at least one property check and reached a verdict"
+        if level != "proof" or not samples:
+            cov["samples"] = (samples or []) + [{"kani_harness": h["harness"], "family": h["family"], "status": h["status"], "cbmc_checks": h["checks"], "time_s": h["time_s"]} for h in hs[:8]]
+        if level == "model_checking":
+            cov["obligations"] = obligations + len(hs)
+            cov["discharged"] = discharged + len([h for h in hs if h.get("status") == "SUCCESSFUL" or h.get("should_panic")])
     ev = {
         "property_id": pid, "tier": tier, "seed": seed, "level": level,
         "coverage": cov,
